@@ -1264,12 +1264,24 @@ impl LSMIterator for TransactionRangeIterator<'_> {
 			self.direction = MergeDirection::Forward;
 			self.is_key_equal = false;
 
-			if !self.snapshot_iter.valid() || !self.ws_valid() {
+			// A source that ran off the low end while going backward has all its keys
+			// above the current position: re-enter it from its first key. A source that
+			// is still positioned sits below the current key (unless it is the current
+			// source) and takes one step forward.
+			let snap_valid = self.snapshot_iter.valid();
+			let ws_valid = self.ws_valid();
+			if !snap_valid {
+				self.snapshot_iter.seek_first()?;
+			}
+			if !ws_valid {
 				self.seek_ws_first();
-			} else if self.current_source == CurrentSource::Snapshot {
-				self.advance_ws();
-			} else {
-				self.snapshot_iter.next()?;
+			}
+			if snap_valid && ws_valid {
+				if self.current_source == CurrentSource::Snapshot {
+					self.advance_ws();
+				} else {
+					self.snapshot_iter.next()?;
+				}
 			}
 
 			// Check if now at equal keys
@@ -1311,12 +1323,22 @@ impl LSMIterator for TransactionRangeIterator<'_> {
 			self.direction = MergeDirection::Backward;
 			self.is_key_equal = false;
 
-			if !self.snapshot_iter.valid() || !self.ws_valid() {
+			// Mirror image of the switch in `next`: a source exhausted at the high end
+			// is re-entered from its last key, a positioned non-current source steps back.
+			let snap_valid = self.snapshot_iter.valid();
+			let ws_valid = self.ws_valid();
+			if !snap_valid {
+				self.snapshot_iter.seek_last()?;
+			}
+			if !ws_valid {
 				self.seek_ws_last();
-			} else if self.current_source == CurrentSource::Snapshot {
-				self.advance_ws();
-			} else {
-				self.snapshot_iter.prev()?;
+			}
+			if snap_valid && ws_valid {
+				if self.current_source == CurrentSource::Snapshot {
+					self.advance_ws();
+				} else {
+					self.snapshot_iter.prev()?;
+				}
 			}
 
 			// Check if now at equal keys
